@@ -7,6 +7,8 @@ package ggql
 //@ ghostmap #unsub Subscriber
 //@ ghostmap #send Subscriber
 //@ ghostmap #sendfail Subscriber
+//@ -- number of times a subscription was handed to the registry (subscribe)
+//@ ghostmap #registered *Subscription
 
 //@ -- Match is assumed to be a function of (subscriber, event id) for the duration of one registry operation.
 //@ interface Subscriber.Match
@@ -47,7 +49,8 @@ package ggql
 //@   check lock {C20}
 //@   requires root != nil && sub != nil
 //@   requires[unlocked]{C20} !held(root.subLock)
-//@   assigns fresh, root.subscriptions, H_Field.ConType, held
+//@   ghost #registered[sub] += 1
+//@   assigns fresh, root.subscriptions, H_Field.ConType, held, #registered
 //@   ensures[no-res] #res == old(#res)
 //@   ensures[appended] len(root.subscriptions) == old(len(root.subscriptions)) + 1 && root.subscriptions[old(len(root.subscriptions))] == sub
 //@   ensures[others-kept] forall k int {root.subscriptions[k]} :: 0 <= k && k < old(len(root.subscriptions)) ==> root.subscriptions[k] == old(root.subscriptions[k])
